@@ -26,7 +26,8 @@ def problem(maximize, dim):
     return FunctionProblem(lambda x: 0.0, bounds=np.array([[-1e9, 1e9]] * dim), maximize=maximize)
 
 
-VALUES = [(3.0, 1.0), (1024.0, 2.0 ** -14)]     # well separated / nearly equal around a large offset
+# well separated / nearly equal around a large offset / equal to ~1e-15 relative (different floats all the same)
+VALUES = [(3.0, 1.0), (1024.0, 2.0 ** -14), (1024.0, 2.0 ** -40)]
 BASE, GAP = VALUES[0]
 
 
@@ -59,7 +60,7 @@ def work(args):
         distinct += 1
         row_idx = base_idx + li
         global BASE, GAP
-        BASE, GAP = VALUES[(row_idx // 3) % 2]
+        BASE, GAP = VALUES[(row_idx // 3) % 3]
         pts = c["pts"]
         n = len(pts)
         factor = c["fn"] / c["fd"]
